@@ -12,8 +12,9 @@
            (`1 not<TAB>in [1]`, known finding C11-notin-spacing). *)
 From Coq Require Import ZArith Bool List String Ascii Floats Lia.
 Require Import X.Base.Num X.Base.Value X.Syn.Ast X.Syn.Tok X.Lex.Lexer X.Lex.LexProofs.
-Require Import X.Parse.Parser X.Parse.Printer X.Parse.ParseProofs X.Parse.Render.
+Require Import X.Parse.Parser X.Parse.Printer X.Parse.ParseProofs X.gen.GenGrammar X.Corr.CorrC11 X.Bridge.BrC11 X.Parse.Render.
 Import ListNotations.
+Open Scope list_scope.
 Open Scope Z_scope.
 
 (* ================================================================== Part A: the lexer *)
@@ -606,6 +607,236 @@ Section Text.
     erase_result (parse_text g o (render L1 toks)) = erase_result (parse_text g o (render L2 toks)).
   Proof. intros g o L1 L2 toks H1 H2. rewrite (text_tokens g o L1 toks H1), (text_tokens g o L2 toks H2). reflexivity. Qed.
 
+  (* ---- a simple sufficient condition for `layout_good`: white space between all tokens *)
+  Notation is_alnum := (is_alnum uni_letter uni_digit).
+  Notation is_space := (is_space uni_space).
+  Notation follow_ok := (follow_ok uni_letter uni_digit).
+  Notation xfollow_ok := (xfollow_ok uni_letter uni_digit).
+  Notation layoutx_ok := (layoutx_ok uni_letter uni_digit uni_space).
+
+  Lemma ws_not_alnum : forall c, ascii_ws c = true -> is_alnum c = false /\ c <> 105 /\ c <> 46.
+  Proof.
+    intros c H. destruct (ascii_ws_cases c H) as [->|[->|[->|[->|[->| ->]]]]]; repeat split; lia.
+  Qed.
+
+  Lemma follow_ws : forall t c rest, ascii_ws c = true -> follow_ok t (c :: rest) = true.
+  Proof.
+    intros t c rest H.
+    destruct t as [r w|n|r|r [r2|]|r|q items|[| |]]; cbn [LexProofs.follow_ok hd_okb]; try reflexivity;
+      try (destruct (r =? 63));
+      destruct (ascii_ws_cases c H) as [->|[->|[->|[->|[->| ->]]]]]; reflexivity.
+  Qed.
+
+  Lemma follow_nil : forall t, follow_ok t [] = true.
+  Proof. intros t. destruct t as [r w|n|r|r [r2|]|r|q items|[| |]]; cbn [LexProofs.follow_ok hd_okb]; try reflexivity. destruct (r =? 63); reflexivity. Qed.
+
+  Lemma notin_ws : forall ws rest, forallb ascii_ws ws = true -> notin_accepts rest = false ->
+    notin_accepts (ws ++ rest) = false.
+  Proof.
+    induction ws as [|c ws IH]; intros rest H N; [exact N|].
+    cbn [forallb] in H. apply andb_true_iff in H. destruct H as [Hc H].
+    unfold notin_accepts. cbn [app drop_spaces]. destruct (c =? 32) eqn:E.
+    - apply (IH rest H N).
+    - destruct (ws_not_alnum c Hc) as (_ & N105 & _).
+      destruct (ws ++ rest) as [|c2 t2]; [reflexivity|].
+      replace (c =? 105) with false by (symmetry; apply Z.eqb_neq; exact N105). reflexivity.
+  Qed.
+
+  Lemma first_rune : forall x, xtok_ok x = true ->
+    exists r rest, xtok_runes x = r :: rest /\ r <> 32 /\ (r = 105 -> exists w, x = XP (PIdent 105 w)).
+  Proof.
+    intros [t| |sp] H; cbn [Render.xtok_ok xtok_runes] in *.
+    2:{ exists 110, [111; 116]. repeat split; [lia|intros; lia]. }
+    2:{ eexists 110, _. split; [reflexivity|]. split; [lia|intros; lia]. }
+    destruct t as [r w|n|r|r [r2|]|r|q items|d]; cbn [tok_ok tok_runes] in *.
+    - exists r, w. split; [reflexivity|]. split.
+      + intros ->. apply andb_true_iff in H. destruct H as [H _]. apply andb_true_iff in H. destruct H as [H _].
+        apply andb_true_iff in H. destruct H as [_ H]. discriminate H.
+      + intros ->. exists w. reflexivity.
+    - destruct n as [d ds fr ex|d ds ex|x ds]; cbn [num_runes num_ok] in *.
+      + eexists d, _. split; [reflexivity|].
+        apply andb_true_iff in H. destruct H as [H _]. apply andb_true_iff in H. destruct H as [H _].
+        apply andb_true_iff in H. destruct H as [H _]. unfold is_dec in H. apply andb_true_iff in H. destruct H as [A B].
+        apply Z.leb_le in A. apply Z.leb_le in B. split; [lia|intros; lia].
+      + eexists 46, _. split; [reflexivity|]. split; [lia|intros; lia].
+      + eexists 48, _. split; [reflexivity|]. split; [lia|intros; lia].
+    - exists r, []. split; [reflexivity|]. apply mem_In in H. cbn [In op1_runes] in H.
+      destruct H as [<-|[<-|[<-|[<-|[<-|[<-|[<-|[<-|[]]]]]]]]]; (split; [lia|intros; lia]).
+    - exists r, [r2]. split; [reflexivity|]. apply andb_true_iff in H. destruct H as [H _].
+      apply mem_In in H. cbn [In op2_first] in H.
+      destruct H as [<-|[<-|[<-|[<-|[<-|[<-|[<-|[]]]]]]]]; (split; [lia|intros; lia]).
+    - exists r, []. split; [reflexivity|]. apply mem_In in H. cbn [In op2_first] in H.
+      destruct H as [<-|[<-|[<-|[<-|[<-|[<-|[<-|[]]]]]]]]; (split; [lia|intros; lia]).
+    - exists r, []. split; [reflexivity|]. apply mem_In in H. cbn [In bracket_runes] in H.
+      destruct H as [<-|[<-|[<-|[<-|[<-|[<-|[]]]]]]]; (split; [lia|intros; lia]).
+    - eexists q, _. split; [reflexivity|]. apply andb_true_iff in H. destruct H as [H _].
+      apply quote_cases in H. destruct H as [-> | ->]; (split; [lia|intros; lia]).
+    - destruct d; cbn [dot_runes]; [exists 46, []|exists 46, [46]|exists 63, [46]]; (split; [reflexivity|split; [lia|intros; lia]]).
+  Qed.
+
+  Definition in_word : xtok := XP (PIdent 105 [110]).
+
+  (* a token other than the word `in` is never mistaken for the second half of `not in` *)
+  Lemma notin_tok : forall x T, xtok_ok x = true -> xfollow_ok x T = true -> x <> in_word ->
+    notin_accepts (xtok_runes x ++ T) = false.
+  Proof.
+    intros x T Hok Hf Hne. destruct (first_rune x Hok) as (r & rest & E & N32 & H105).
+    destruct (Z.eq_dec r 105) as [->|N105].
+    - destruct (H105 eq_refl) as (w & ->). clear H105 E.
+      cbn [xtok_runes tok_runes Render.xtok_ok tok_ok Render.xfollow_ok LexProofs.follow_ok] in *.
+      unfold notin_accepts. cbn [app drop_spaces]. change (105 =? 32) with false. cbv iota.
+      apply andb_true_iff in Hok. destruct Hok as [Hok _]. apply andb_true_iff in Hok. destruct Hok as [_ Hw].
+      destruct w as [|c2 w'].
+      + cbn [app]. destruct T as [|c T']; [reflexivity|]. cbn [hd_okb] in Hf. apply negb_true_iff in Hf.
+        destruct (Z.eqb_spec c 110) as [->|_]; [discriminate Hf|]. rewrite andb_false_r. reflexivity.
+      + cbn [app]. destruct (Z.eqb_spec c2 110) as [->|_]; [|rewrite andb_false_r; reflexivity].
+        destruct w' as [|c3 w''].
+        * exfalso. apply Hne. reflexivity.
+        * cbn [app]. cbn [forallb] in Hw. apply andb_true_iff in Hw. destruct Hw as [_ Hw].
+          apply andb_true_iff in Hw. destruct Hw as [H3 _].
+          destruct (Z.eqb_spec c3 32) as [->|_]; [discriminate H3|].
+          destruct (Z.eqb_spec c3 eof) as [->|_]; [discriminate H3|]. reflexivity.
+    - rewrite E. unfold notin_accepts. cbn [app drop_spaces].
+      replace (r =? 32) with false by (symmetry; apply Z.eqb_neq; exact N32).
+      destruct (rest ++ T) as [|c2 t2]; [reflexivity|].
+      replace (r =? 105) with false by (symmetry; apply Z.eqb_neq; exact N105). reflexivity.
+  Qed.
+
+  Lemma notin_only_ws : forall ws, forallb ascii_ws ws = true -> notin_accepts ws = false.
+  Proof. intros ws H. rewrite <- (app_nil_r ws). apply notin_ws; [exact H|reflexivity]. Qed.
+
+  Lemma xfollow_ws : forall x c ws rest, forallb ascii_ws (c :: ws) = true ->
+    (forall sp, x = XNotIn sp -> c = 32) -> (x = XNot -> notin_accepts rest = false) ->
+    xfollow_ok x ((c :: ws) ++ rest) = true.
+  Proof.
+    intros x c ws rest H HN HX. pose proof H as H'. cbn [forallb] in H'. apply andb_true_iff in H'. destruct H' as [Hc _].
+    destruct x as [t| |sp]; cbn [Render.xfollow_ok app].
+    - apply follow_ws. exact Hc.
+    - cbn [hd_okb]. destruct (ws_not_alnum c Hc) as (A & _). rewrite A. cbn [negb andb].
+      apply negb_true_iff. apply (notin_ws (c :: ws) rest H). apply HX. reflexivity.
+    - cbn [hd_okb]. rewrite (HN sp eq_refl). reflexivity.
+  Qed.
+
+  Lemma xfollow_end : forall x trail, forallb ascii_ws trail = true ->
+    (forall sp, x = XNotIn sp -> hd_okb (fun c => c =? 32) trail = true) -> xfollow_ok x trail = true.
+  Proof.
+    intros x trail H HN. destruct trail as [|c ws].
+    - destruct x as [t| |sp]; cbn [Render.xfollow_ok]; [apply follow_nil|reflexivity|reflexivity].
+    - rewrite <- (app_nil_r (c :: ws)). apply xfollow_ws; [exact H| |reflexivity].
+      intros sp E. specialize (HN sp E). cbn [hd_okb] in HN. apply Z.eqb_eq in HN. exact HN.
+  Qed.
+
+  Lemma finish_ok : forall t p L i, pre_spell t = Some p ->
+    (is_op_tok "not in" t = true -> forallb (fun c => c =? 32) (inner L i) && negb (is_nil (inner L i)) = true) ->
+    xtok_ok (finish L i p) = true.
+  Proof.
+    intros t p L i H HN. apply pre_spell_check in H. destruct p as [x|rs|]; cbn [Render.check finish] in *.
+    - apply andb_true_iff in H. destruct H as [H _]. apply andb_true_iff in H. destruct H as [H _]. exact H.
+    - apply andb_true_iff in H. destruct H as [H _]. apply andb_true_iff in H. destruct H as [S _].
+      set (q := if dquote L i then 34 else 39).
+      assert (Hq : q = 34 \/ q = 39) by (unfold q; destruct (dquote L i); auto).
+      destruct (canon_items_ok q rs Hq S) as [A _]. cbn [Render.xtok_ok tok_ok]. rewrite A.
+      destruct Hq as [-> | ->]; reflexivity.
+    - cbn [Render.xtok_ok]. apply HN. unfold is_op_tok.
+      apply andb_true_iff in H. destruct H as [K V]. apply tkind_eqb_eq in K. apply String.eqb_eq in V.
+      rewrite <- K, <- V. reflexivity.
+  Qed.
+
+  Lemma finish_notin : forall t p L i sp, pre_spell t = Some p -> finish L i p = XNotIn sp -> is_op_tok "not in" t = true.
+  Proof.
+    intros t p L i sp H E. pose proof (pre_spell_sound t p L i H) as S. rewrite E in S.
+    unfold xtoken, strip_tok in S. cbn [xtok_kind xtok_value] in S. injection S as K V.
+    unfold is_op_tok. rewrite <- K, <- V. reflexivity.
+  Qed.
+
+  Lemma finish_not : forall t p L i, pre_spell t = Some p -> finish L i p = XNot -> is_op_tok "not" t = true.
+  Proof.
+    intros t p L i H E. pose proof (pre_spell_sound t p L i H) as S. rewrite E in S.
+    unfold xtoken, strip_tok in S. cbn [xtok_kind xtok_value] in S. injection S as K V.
+    unfold is_op_tok. rewrite <- K, <- V. reflexivity.
+  Qed.
+
+  Lemma finish_in : forall t p L i, pre_spell t = Some p -> finish L i p = in_word -> is_op_tok "in" t = true.
+  Proof.
+    intros t p L i H E. pose proof (pre_spell_sound t p L i H) as S. rewrite E in S.
+    unfold xtoken, strip_tok, in_word in S. injection S as K V.
+    unfold is_op_tok. rewrite <- K, <- V. reflexivity.
+  Qed.
+
+  Lemma spell_all_nil : forall t r, pre_spell_all (t :: r) = Some [] -> r = [].
+  Proof.
+    intros t [|t2 r'] H; [reflexivity|].
+    change (pre_spell_all (t :: t2 :: r')) with
+      (match pre_spell t, pre_spell_all (t2 :: r') with Some p, Some ps0 => Some (p :: ps0) | _, _ => None end) in H.
+    destruct (pre_spell t); [|discriminate]. destruct (pre_spell_all (t2 :: r')); discriminate.
+  Qed.
+
+  Lemma roomy_gen : forall toks ps L i, pre_spell_all toks = Some ps -> not_in_free toks = true ->
+    gaps_ok L i toks = true -> notin_spaced L i toks = true ->
+    layoutx_ok (items_of L i ps) (gap L (i + List.length ps)) = true.
+  Proof.
+    induction toks as [|t r IH]; intros ps L i HS HF HG HN; [discriminate|].
+    destruct r as [|t2 r'].
+    - cbn [Render.pre_spell_all] in HS.
+      destruct (tkind_eqb (tkind_of t) TkEOF && String.eqb (tval t) ""); [|discriminate]. injection HS as <-.
+      cbn [items_of Render.layoutx_ok List.length]. rewrite Nat.add_0_r.
+      cbn [gaps_ok] in HG. apply andb_true_iff in HG. destruct HG as [HG _]. apply andb_true_iff in HG. apply HG.
+    - change (pre_spell_all (t :: t2 :: r')) with
+        (match pre_spell t, pre_spell_all (t2 :: r') with Some p, Some ps0 => Some (p :: ps0) | _, _ => None end) in HS.
+      destruct (pre_spell t) as [p|] eqn:E1; [|discriminate].
+      destruct (pre_spell_all (t2 :: r')) as [ps0|] eqn:E2; [|discriminate].
+      injection HS as <-.
+      change (not_in_free (t :: t2 :: r')) with
+        ((if is_op_tok "not" t then negb (is_op_tok "in" t2) else true) && not_in_free (t2 :: r')) in HF.
+      apply andb_true_iff in HF. destruct HF as [HF1 HF].
+      change (gaps_ok L i (t :: t2 :: r')) with
+        (forallb ascii_ws (gap L i) && (Nat.eqb i 0 || false || negb (is_nil (gap L i))) && gaps_ok L (S i) (t2 :: r')) in HG.
+      apply andb_true_iff in HG. destruct HG as [HG1 HG]. apply andb_true_iff in HG1. destruct HG1 as [HG1 _].
+      change (notin_spaced L i (t :: t2 :: r')) with
+        ((if is_op_tok "not in" t
+          then forallb (fun c => c =? 32) (inner L i) && negb (is_nil (inner L i)) && hd_okb (fun c => c =? 32) (gap L (S i))
+          else true) && notin_spaced L (S i) (t2 :: r')) in HN.
+      apply andb_true_iff in HN. destruct HN as [HN1 HN].
+      specialize (IH ps0 L (S i) eq_refl HF HG HN).
+      cbn [items_of Render.layoutx_ok List.length]. rewrite Nat.add_succ_r. change (S (i + List.length ps0)) with (S i + List.length ps0)%nat.
+      rewrite HG1, IH. rewrite andb_true_r. cbn [andb].
+      assert (OK : xtok_ok (finish L i p) = true).
+      { apply (finish_ok t p L i E1). intros K. rewrite K in HN1. apply andb_true_iff in HN1. apply HN1. }
+      rewrite OK. cbn [andb].
+      assert (NI : forall sp, finish L i p = XNotIn sp -> hd_okb (fun c => c =? 32) (gap L (S i)) = true).
+      { intros sp E. rewrite (finish_notin t p L i sp E1 E) in HN1. apply andb_true_iff in HN1. apply HN1. }
+      pose proof HG as HG'. 
+      change (gaps_ok L (S i) (t2 :: r')) with
+        (forallb ascii_ws (gap L (S i)) && (false || is_nil r' || negb (is_nil (gap L (S i)))) && gaps_ok L (S (S i)) r') in HG'.
+      apply andb_true_iff in HG'. destruct HG' as [HG' _]. apply andb_true_iff in HG'. destruct HG' as [W2 NE2]. cbn [orb] in NE2.
+      destruct ps0 as [|p2 ps1].
+      + cbn [items_of layoutx List.length]. rewrite Nat.add_0_r. apply xfollow_end; [exact W2|exact NI].
+      + assert (Hr : r' <> []) by (intros ->; cbn [Render.pre_spell_all] in E2; destruct (tkind_eqb (tkind_of t2) TkEOF && String.eqb (tval t2) ""); discriminate).
+        destruct r' as [|t3 r'']; [congruence|]. cbn [is_nil orb] in NE2.
+        cbn [items_of layoutx]. cbn [items_of Render.layoutx_ok] in IH.
+        apply andb_true_iff in IH. destruct IH as [IH _]. apply andb_true_iff in IH. destruct IH as [IH F2].
+        apply andb_true_iff in IH. destruct IH as [_ OK2].
+        destruct (gap L (S i)) as [|c ws] eqn:EG; [discriminate NE2|].
+        apply xfollow_ws; [exact W2| |].
+        * intros sp E. specialize (NI sp E). cbn [hd_okb] in NI. apply Z.eqb_eq in NI. exact NI.
+        * intros E. apply notin_tok; [exact OK2|exact F2|].
+          intros EI. rewrite (finish_not t p L i E1 E) in HF1.
+          change (pre_spell_all (t2 :: t3 :: r'')) with
+            (match pre_spell t2, pre_spell_all (t3 :: r'') with Some p, Some ps0 => Some (p :: ps0) | _, _ => None end) in E2.
+          destruct (pre_spell t2) as [p2'|] eqn:E3; [|discriminate].
+          destruct (pre_spell_all (t3 :: r'')) as [ps1'|]; [|discriminate].
+          injection E2 as -> ->. rewrite (finish_in t2 p2 L (S i) E3 EI) in HF1. discriminate HF1.
+  Qed.
+
+  (* white space between all tokens, spaces inside and after `not in`: a good layout *)
+  Theorem roomy_good : forall L toks, lexable toks = true -> not_in_free toks = true ->
+    gaps_ok L 0 toks = true -> notin_spaced L 0 toks = true -> layout_good L toks = true.
+  Proof.
+    intros L toks HL HF HG HN. unfold Render.lexable, Render.layout_good in *.
+    destruct (pre_spell_all toks) as [ps|] eqn:E; [|discriminate].
+    apply (roomy_gen toks ps L 0%nat E HF HG HN).
+  Qed.
+
   Section RoundTrip.
     Variable g : grammar.
     Variable o : oracles.
@@ -656,5 +887,87 @@ Section Text.
       destruct (text_roundtrip c2 t L2 W2 H2) as (t2 & P2 & E2).
       exists t1, t2. repeat split; try assumption. congruence.
     Qed.
+
+    (* the same with the simple conditions on the layout: white space between all tokens, U+0020 inside and
+       after `not in` *)
+    Definition spaced (L : layout) (toks : list token) : bool :=
+      lexable toks && not_in_free toks && gaps_ok L 0 toks && notin_spaced L 0 toks.
+
+    Lemma spaced_good : forall L toks, spaced L toks = true -> layout_good L toks = true.
+    Proof.
+      intros L toks H. unfold spaced in H.
+      apply andb_true_iff in H. destruct H as [H H4]. apply andb_true_iff in H. destruct H as [H H3].
+      apply andb_true_iff in H. destruct H as [H1 H2]. apply roomy_good; assumption.
+    Qed.
+
+    Theorem text_roundtrip_spaced : forall c t L,
+      printable c t -> spaced L (print_any c t) = true ->
+      exists t', parse_text g o (render L (print_any c t)) = ROk t' /\ erase_loc t' = erase_loc t.
+    Proof. intros c t L W H. apply text_roundtrip; [exact W|apply spaced_good; exact H]. Qed.
   End RoundTrip.
+
+  Lemma notin_spaced_white : forall toks L i, notin_spaced L i toks = true -> notin_white L i toks = true.
+  Proof.
+    induction toks as [|t r IH]; intros L i H; [reflexivity|]. cbn [notin_spaced notin_white] in *.
+    apply andb_true_iff in H. destruct H as [H1 H2]. rewrite (IH L (S i) H2), andb_true_r.
+    destruct (is_op_tok "not in" t); [|reflexivity].
+    apply andb_true_iff in H1. destruct H1 as [H1 _]. apply andb_true_iff in H1. destruct H1 as [A B]. rewrite B, andb_true_r.
+    rewrite forallb_forall in *. intros c Hc. specialize (A c Hc). apply Z.eqb_eq in A. subst c. reflexivity.
+  Qed.
+
+  (* the carve-out only concerns token lists that contain the operator `not in` *)
+  Lemma notin_spaced_absent : forall toks L i,
+    forallb (fun t => negb (is_op_tok "not in" t)) toks = true -> notin_spaced L i toks = true.
+  Proof.
+    induction toks as [|t r IH]; intros L i H; [reflexivity|]. cbn [forallb notin_spaced] in *.
+    apply andb_true_iff in H. destruct H as [H1 H2]. apply negb_true_iff in H1. rewrite H1, (IH L (S i) H2). reflexivity.
+  Qed.
 End Text.
+
+(* ================================================================== Part D: the pinned tables; what is NOT true *)
+(* The unrestricted statement: ANY non-empty white-space run between the two words of `not in` and after it.
+   `gaps_ok`: all runs are white space, non-empty between tokens.  `notin_white`: the run inside `not in`
+   is a non-empty white-space run. *)
+Definition text_full_statement : Prop :=
+  forall (uni_letter uni_digit uni_space : Z -> bool) (o : oracles) (fmt_int : Z -> string) (fmt_float : float -> string)
+         (c : poracle) (t : expr) (L : layout),
+    let toks := print_any gen_grammar fmt_int fmt_float c t in
+    printable gen_grammar fmt_int fmt_float o c t ->
+    lexable uni_letter uni_digit uni_space toks = true -> not_in_free toks = true ->
+    gaps_ok L 0 toks = true -> notin_white L 0 toks = true ->
+    exists t', parse_text uni_letter uni_digit uni_space gen_grammar o (render uni_letter uni_digit uni_space L toks) = ROk t' /\
+               erase_loc t' = erase_loc t.
+
+(* witness: `1 not<TAB>in [ 1 ]` *)
+Definition notin_witness : expr := EBinary ann0 BNotIn (EInt ann0 1) (EArray ann0 [EInt ann0 1]).
+Definition notin_oracles : oracles := mkOracles (fun _ => None) (fun _ => true).
+Definition tab_layout : layout :=
+  mkLayout (fun i => match i with O => [] | S _ => [32] end) (fun _ => [9]) (fun _ => true).
+Definition space_layout : layout :=
+  mkLayout (fun i => match i with O => [] | S _ => [32] end) (fun _ => [32]) (fun _ => true).
+
+Theorem text_full_statement_refuted : ~ text_full_statement.
+Proof.
+  intros H.
+  specialize (H (fun _ => false) (fun _ => false) (fun _ => false) notin_oracles dec (fun _ => EmptyString) no_extra notin_witness tab_layout).
+  cbv zeta in H.
+  assert (P : printable gen_grammar dec (fun _ => EmptyString) notin_oracles no_extra notin_witness).
+  { vm_compute. repeat split; try reflexivity; intros; discriminate. }
+  destruct (H P) as (t' & E & _); try (vm_compute; reflexivity).
+  vm_compute in E. discriminate E.
+Qed.
+
+(* the partial statement: the same with U+0020 only inside and after `not in` (`notin_spaced`) *)
+Theorem text_partial : forall (uni_letter uni_digit uni_space : Z -> bool) (o : oracles) (fmt_int : Z -> string) (fmt_float : float -> string)
+    (c : poracle) (t : expr) (L : layout),
+  let toks := print_any gen_grammar fmt_int fmt_float c t in
+  printable gen_grammar fmt_int fmt_float o c t ->
+  lexable uni_letter uni_digit uni_space toks = true -> not_in_free toks = true ->
+  gaps_ok L 0 toks = true -> notin_spaced L 0 toks = true ->
+  exists t', parse_text uni_letter uni_digit uni_space gen_grammar o (render uni_letter uni_digit uni_space L toks) = ROk t' /\
+             erase_loc t' = erase_loc t.
+Proof.
+  intros ul ud us o fi ff c t L toks W H1 H2 H3 H4.
+  apply (text_roundtrip ul ud us gen_grammar o fi ff gen_grammar_wf c t L W).
+  apply roomy_good; assumption.
+Qed.
